@@ -1,9 +1,14 @@
+_VARIANTS = '{"case", "tag", "uid", "alias"}'
+
+
 def register(PROPS, HARNESS_PKGS):
     part = {
         "name": "routing",
         "mc": [{"module": "Routing", "cfg": "Routing_mc.cfg"}],
-        "quick": {"gen": [{"module": "Routing", "cfg": "Routing_gen.cfg", "params": {"EP": '{"e1", "e2"}'}}], "sample": 600},
-        "thorough": {"gen": [{"module": "Routing", "cfg": "Routing_gen.cfg", "params": {"EP": '{"e1", "e2", "e3"}'}}]},
+        "quick": {"gen": [{"module": "Routing", "cfg": "Routing_gen.cfg", "params": {"EP": '{"e1", "e2"}', "Spellings": '{"exact"}'}},
+                          {"module": "Routing", "cfg": "Routing_gen.cfg", "params": {"EP": '{"e1", "e2"}', "Spellings": _VARIANTS}}], "sample": 700},
+        "thorough": {"gen": [{"module": "Routing", "cfg": "Routing_gen.cfg", "params": {"EP": '{"e1", "e2", "e3"}', "Spellings": '{"exact"}'}},
+                             {"module": "Routing", "cfg": "Routing_gen.cfg", "params": {"EP": '{"e1", "e2"}', "Spellings": _VARIANTS}}]},
         "pkg": "internal/app", "test": "TestVerif_Routing",
         "harness_files": ["stack_test.go", "dispatch_test.go", "routing_test.go"],
         "trace": {"module": "RoutingTrace", "cfg": "Routing_trace.cfg"},
@@ -11,11 +16,12 @@ def register(PROPS, HARNESS_PKGS):
     }
     PROPS["C09"] = {
         "rule": "TLC enumerates the whole decision table: strategy x fallback x refresh-on-miss x healthy set H x "
-                "listing set L (x unified/plain registry x proxy/provider route); each row boots the assembled server "
+                "listing set L (x unified/plain registry x proxy/provider route x how the request spells the model: native name, other letter case, ':latest' added, unified id, alias); each row boots the assembled server "
                 "with that routing strategy, makes the endpoints outside H unhealthy through real health checks, "
                 "sends one request for the model and records who was contacted, the client status and the "
                 "routing-decision headers. Non-trivial = no healthy endpoint lists the model.",
         "exhaustive": True,
-        "assumptions": ["model spelling variants (case, tags, aliases) are not enumerated in this revision"],
+        "assumptions": ["spellings: the native name, the unified id and an alias as olla's own catalogue publishes them count as listed; "
+                        "another letter case or an added ':latest' tag may be taken for the listed model or for an unknown one, nothing else"],
         "parts": [part],
     }
